@@ -1,6 +1,7 @@
 import CV.Drv.Util
 import CV.Model.HttpResp
 import CV.Model.HttpRespSpec
+import CV.Model.HttpRespPath
 /-
 Line protocol of the C15 model (`httpresp`).
 
@@ -12,6 +13,16 @@ Line protocol of the C15 model (`httpresp`).
         expect = <head01>:<status>:<body-hex>:<hdr>,<hdr>…   (`-` for no headers)
         -> ok | fail <clause> <index>
   split <bytes-hex> <head01> <eof01>  -> status, headers, body, rest of the RFC reader (for diagnosis)
+  pathstep <ev>*          the decision code (`step`, from handled = False) on the observed events of one request
+        ev = success:<seen> | changed:ready|promise|other | failure:<exc> | exception:own|foreign|nested:<exc>
+        seen = none|flag|errorevent:<code>|response|plain|triple:<exc>|valready|valerror:<exc>|valpending
+        exc = redirect:<code> | http:<code> | other
+        -> `<fired>*` (`-` for none)        fired = respond | error:<code> | redirect:<code>
+  pathtrace <path> <kind> <stage>   the events the model expects for the handler shape, and the expected answer
+        path = plain|plain-gen|plain-call|plain-fire|plain-value|nobody|expose|expose-gen|expose-call|expose-wait|
+               expose-fire|expose-fire-late;  kind = value|response|errorevent:<code>;
+        stage = ok | handler:<exc> | after-yield:<exc> | callee:<exc>
+        -> `<ev>* | <fired>` or `none` (no such combination)
 -/
 namespace CV.Drv
 open CV.HttpResp
@@ -54,6 +65,109 @@ def showVerdict : CV.HttpSpec.Verdict → String
   | .ok => "ok"
   | .fail c i => s!"fail {c} {i}"
 
+
+/-! ### handler-return paths -/
+
+def hpParseExc : List String → Option Exc
+  | ["redirect", c] => c.toNat?.map Exc.redirect
+  | ["http", c] => c.toNat?.map Exc.http
+  | ["other"] => some .other
+  | _ => none
+
+def hpShowExc : Exc → String
+  | .redirect c => s!"redirect:{c}"
+  | .http c => s!"http:{c}"
+  | .other => "other"
+
+def hpParseEv (t : String) : Option HttpEv :=
+  match t.splitOn ":" with
+  | ["success", "none"] => some (.success .none)
+  | ["success", "flag"] => some (.success .flag)
+  | ["success", "errorevent", c] => c.toNat?.map (fun c => .success (.errorEvent c))
+  | ["success", "response"] => some (.success .response)
+  | ["success", "plain"] => some (.success .plain)
+  | ["success", "valready"] => some (.success .valReady)
+  | ["success", "valpending"] => some (.success .valPending)
+  | "success" :: "triple" :: e => (hpParseExc e).map (fun e => .success (.triple e))
+  | "success" :: "valerror" :: e => (hpParseExc e).map (fun e => .success (.valError e))
+  | ["changed", "ready"] => some (.changed .ready)
+  | ["changed", "promise"] => some (.changed .promise)
+  | ["changed", "other"] => some (.changed .other)
+  | "failure" :: e => (hpParseExc e).map HttpEv.failure
+  | ["exception", "own"] => some (.exception .own)
+  | ["exception", "foreign"] => some (.exception .foreign)
+  | "exception" :: "nested" :: e => (hpParseExc e).map (fun e => .exception (.nested e))
+  | _ => none
+
+def hpShowEv : HttpEv → String
+  | .success .none => "success:none"
+  | .success .flag => "success:flag"
+  | .success (.errorEvent c) => s!"success:errorevent:{c}"
+  | .success .response => "success:response"
+  | .success .plain => "success:plain"
+  | .success (.triple e) => "success:triple:" ++ hpShowExc e
+  | .success .valReady => "success:valready"
+  | .success (.valError e) => "success:valerror:" ++ hpShowExc e
+  | .success .valPending => "success:valpending"
+  | .changed .ready => "changed:ready"
+  | .changed .promise => "changed:promise"
+  | .changed .other => "changed:other"
+  | .failure e => "failure:" ++ hpShowExc e
+  | .exception .own => "exception:own"
+  | .exception (.nested e) => "exception:nested:" ++ hpShowExc e
+  | .exception .foreign => "exception:foreign"
+
+def hpShowFired : Fired → String
+  | .respond => "respond"
+  | .error c => s!"error:{c}"
+  | .redirect c => s!"redirect:{c}"
+
+def hpParsePath : String → Option Path
+  | "plain" => some .plain
+  | "plain-gen" => some .plainGen
+  | "plain-call" => some .plainCall
+  | "plain-fire" => some .plainFire
+  | "plain-value" => some .plainValue
+  | "nobody" => some .nobody
+  | "expose" => some .expose
+  | "expose-gen" => some .exposeGen
+  | "expose-call" => some .exposeCall
+  | "expose-wait" => some .exposeWait
+  | "expose-fire" => some .exposeFire
+  | "expose-fire-late" => some .exposeFireLate
+  | _ => none
+
+def hpParseKind (t : String) : Option Kind :=
+  match t.splitOn ":" with
+  | ["value"] => some .value
+  | ["response"] => some .responseObj
+  | ["errorevent", c] => c.toNat?.map Kind.errorEvent
+  | _ => none
+
+def hpParseStage (t : String) : Option Stage :=
+  match t.splitOn ":" with
+  | ["ok"] => some .ok
+  | "handler" :: e => (hpParseExc e).map Stage.handler
+  | "after-yield" :: e => (hpParseExc e).map Stage.afterYield
+  | "callee" :: e => (hpParseExc e).map Stage.callee
+  | _ => none
+
+def hpJoinOrDash (ts : List String) : String := if ts.isEmpty then "-" else " ".intercalate ts
+
+def pathStep : List String → Option String
+  | "pathstep" :: evs =>
+    match evs.mapM hpParseEv with
+    | some evs => some (hpJoinOrDash ((fired evs).map hpShowFired))
+    | none => some "bad-op"
+  | ["pathtrace", p, k, s] =>
+    match hpParsePath p, hpParseKind k, hpParseStage s with
+    | some p, some k, some s =>
+      match trace p k s with
+      | some evs => some (hpJoinOrDash (evs.map hpShowEv) ++ " | " ++ hpShowFired (expected p s))
+      | none => some "none"
+    | _, _, _ => some "bad-op"
+  | _ => none
+
 def httprespStep (c : Conn) : List String → Conn × String
   | "serve" :: h :: v :: k :: st :: rs :: fc :: kind :: rest =>
     let (hts, pts) := splitAtBar rest
@@ -91,7 +205,7 @@ def httprespStep (c : Conn) : List String → Conn × String
       | .error .framing => (c, "error framing")
       | .error .body => (c, "error body")
     | _, _, _ => (c, "bad-op")
-  | _ => (c, "bad-op")
+  | ts => (c, (pathStep ts).getD "bad-op")
 
 def httprespMachine : Machine := ⟨Conn, Conn.fresh, httprespStep⟩
 
